@@ -110,6 +110,13 @@ pub trait StorageData: Sized {
     /// (if the storage is file based).
     fn rename(&mut self, new_name: &str) -> Result<(), DbError>;
 
+    /// Discards every change made since the last [`flush()`](#method.flush)
+    /// restoring the content the storage had at that point. Used to recover
+    /// after a failed write. The default implementation does nothing.
+    fn rollback(&mut self) -> Result<(), DbError> {
+        Ok(())
+    }
+
     /// Resizes the underlying storage to `new_len`. If the storage is enlarged as
     /// a result the new bytes should be initialized to `0_u8`.
     fn resize(&mut self, new_len: u64) -> Result<(), DbError>;
@@ -324,8 +331,22 @@ impl<D: StorageData> Storage<D> {
         self.commit(id)
     }
 
+    /// Abandons all open transactions restoring the content as of the last
+    /// completed outermost transaction and reloads the records from it.
+    pub fn rollback(&mut self) -> Result<(), DbError> {
+        self.data.rollback()?;
+        self.transactions = 0;
+        self.records = StorageRecords::new();
+        self.read_records()
+    }
+
     pub fn transaction(&mut self) -> u64 {
         self.begin_transaction()
+    }
+
+    /// Returns the number of currently open (nested) transactions.
+    pub fn transactions(&self) -> u64 {
+        self.transactions
     }
 
     pub fn value<T: Serialize>(&self, index: StorageIndex) -> Result<T, DbError> {
